@@ -54,6 +54,31 @@ func c24Gen(t *rapid.T) c24Case {
 		}
 		c.Rules = append(c.Rules, c09Rule{RE: re, Action: rapid.IntRange(1, 31).Draw(t, "token"), Prec: rapid.IntRange(0, 2).Draw(t, "prec"), SCs: []int{0}})
 	}
+	// Named patterns (Options.Patterns of shiftdfa.Compile): an alternation or a sequence, used
+	// as `{n0}x`, `{n0}+` or `x{n0}` — a reference is one atom, whatever its text looks like.
+	if rapid.IntRange(0, 2).Draw(t, "named") == 0 {
+		lit := func(label string) *respec.Node {
+			return &respec.Node{Op: "lit", R: rune("abcxyz01"[rapid.IntRange(0, 7).Draw(t, label)])}
+		}
+		var def *respec.Node
+		if rapid.Bool().Draw(t, "namedAlt") {
+			def = &respec.Node{Op: "alt", Sub: []*respec.Node{lit("na"), {Op: "cat", Sub: []*respec.Node{lit("nb"), lit("nc")}}}}
+		} else {
+			def = &respec.Node{Op: "cat", Sub: []*respec.Node{lit("na"), {Op: "class", Cls: genClass(t, o, 1)}}}
+		}
+		c.Named = map[string]*respec.Node{"n0": def}
+		ref := &respec.Node{Op: "ref", Name: "n0"}
+		var use *respec.Node
+		switch rapid.IntRange(0, 2).Draw(t, "namedUse") {
+		case 0:
+			use = &respec.Node{Op: "cat", Sub: []*respec.Node{ref, lit("nd")}}
+		case 1:
+			use = &respec.Node{Op: "rep", Min: 1, Max: -1, Sub: []*respec.Node{ref}}
+		default:
+			use = &respec.Node{Op: "cat", Sub: []*respec.Node{lit("nd"), ref, {Op: "rep", Min: 0, Max: 1, Sub: []*respec.Node{lit("ne")}}}}
+		}
+		c.Rules[rapid.IntRange(0, len(c.Rules)-1).Draw(t, "namedRule")].RE = use
+	}
 	return c
 }
 
@@ -140,6 +165,22 @@ func c24Check(c c24Case, r *ev.Recorder) *Failure {
 		inputs = append(inputs, string(b))
 	}
 	inputs = append(inputs, c.Extra...)
+	// the compiler's front door: the same rules as text, named patterns through Options.Patterns
+	var textRules []shiftdfa.Rule
+	for i, text := range cc.texts() {
+		textRules = append(textRules, shiftdfa.Rule{Pattern: text, Token: c.Rules[i].Action, Precedence: c.Rules[i].Prec})
+	}
+	patterns := map[string]string{}
+	for name, n := range c.Named {
+		patterns[name] = respec.Render(n)
+	}
+	sc2, err := shiftdfa.Compile(textRules, shiftdfa.Options{Patterns: patterns})
+	if err != nil {
+		r.Class("Compile-rejects-what-Pack-accepts")
+		sc2 = nil
+	} else if len(c.Named) > 0 {
+		r.Class("compiled-with-named-patterns")
+	}
 	high := false
 	for _, in := range inputs {
 		ws, wa := tbl.Scan(0, in)
@@ -147,6 +188,13 @@ func c24Check(c c24Case, r *ev.Recorder) *Failure {
 		r.Eval(1)
 		if gs != ws || int(gt) != wa {
 			return failf("scan-differs", "input %q: shiftdfa.Scanner.Scan = (%d, %d), lex.Tables.Scan = (%d, %d); rules: %s", in, gs, gt, ws, wa, cc.describe())
+		}
+		if sc2 != nil {
+			gs, gt := sc2.Scan(in)
+			r.Eval(1)
+			if gs != ws || int(gt) != wa {
+				return failf("compiled-scan-differs", "input %q: the scanner of shiftdfa.Compile returns (%d, %d), lex.Tables.Scan = (%d, %d); rules: %s", in, gs, gt, ws, wa, cc.describe())
+			}
 		}
 		if strings.IndexFunc(in, func(r rune) bool { return r >= 0x80 }) >= 0 {
 			high = true
@@ -186,7 +234,7 @@ func lastLine(s string) string {
 func TestC24(t *testing.T) {
 	p := &prop[c24Case]{
 		ID:   "C24",
-		Rule: "byte-mode rule sets of 1..4 rules (literals, class+, classes over bytes 0x80..0xff written with \\xHH, small random patterns), tokens 1..31, priorities 0..2, compiled by lex.Compile(scanBytes, no backtracking) and packed with shiftdfa.Pack; kept when both accept. Inputs: all strings of length <=4 over the rules' first five symbols plus one byte >=0x80 and one unrelated byte, and 60 random byte strings (1/3 of the bytes >= 0x80). Scanner.Scan must equal Tables.Scan(0, .) as (size, token). Non-trivial: inputs contain bytes >= 0x80 and the DFA has >=4 states or the rules mention such bytes; distinct by rules JSON.",
+		Rule: "byte-mode rule sets of 1..4 rules (literals, class+, classes over bytes 0x80..0xff written with \\xHH, small random patterns), tokens 1..31, priorities 0..2, compiled by lex.Compile(scanBytes, no backtracking) and packed with shiftdfa.Pack; kept when both accept; in a third of the cases one rule uses a named pattern (an alternation or a sequence, as `{n0}x`, `{n0}+`, `x{n0}y?`). The same rules are also given as text to shiftdfa.Compile (named patterns through Options.Patterns). Inputs: all strings of length <=4 over the rules' first five symbols plus one byte >=0x80 and one unrelated byte, and 60 random byte strings (1/3 of the bytes >= 0x80). Scanner.Scan of both scanners must equal Tables.Scan(0, .) as (size, token). Non-trivial: inputs contain bytes >= 0x80 and the DFA has >=4 states or the rules mention such bytes; distinct by rules JSON.",
 		Quick: 15000, Thorough: 150000,
 		Gen:   c24Gen,
 		Check: c24Check,
